@@ -170,6 +170,57 @@ def fn_random(items):
     return {'n': n, 'nt': n, 'viol': viol, 'extra': extra}
 
 
+def fn_random_r(items):
+    """item = [pkg, N]: random_pauli_state(N, r) and random_clifford_state(N, r) for every r under every coin string
+    of 8 scripted coins (filler 1): the state has the requested log2-rank r, is a valid tableau, denotes a rank-2^r
+    projector/2^r, and random_pauli_state is the tensor product of its one-qubit marginals (r maximally mixed,
+    N-r pure)."""
+    n = 0
+    viol = []
+    for pkg, N in items:
+        if pkg == 'py':
+            mod = lib.pc
+
+            def call(f, coins):
+                rng.script(coins, coins)
+                return f()
+        else:
+            from . import c16
+            mod = lib.torch_mods()['tc']
+
+            def call(f, coins):
+                return c16.run_torch(f)(coins, ())[2]
+        for nm in ('random_pauli_state', 'random_clifford_state'):
+            ctor = getattr(mod, nm)
+            for r in range(N + 1):
+                for coins in itertools.product((0, 1), repeat=8):
+                    try:
+                        st = call(lambda: ctor(N, r), coins)
+                        gs, ps, rr = _st_arrays(pkg, st)
+                    except Exception as e:
+                        viol.append(V('C12/%s(N,r)/%s/raises-%s' % (nm, pkg, type(e).__name__), [pkg, N], '%s(%d,%d) coins %s raised %s: %s' % (nm, N, r, coins, type(e).__name__, e)))
+                        break
+                    n += 1
+                    bad = ref.tableau_invariant(gs, ps, rr)
+                    if bad:
+                        if pkg == 'py':
+                            viol.append(V('C12/%s(N,r)/%s/invalid' % (nm, pkg), [pkg, N], '%s(%d,%d) coins %s invalid: %s' % (nm, N, r, coins, bad)))
+                        continue      # validity of the torch samplers is judged by C16
+                    m = ref.rho(gs, ps, rr)
+                    if rr != r or not ref.is_density(m, rank=2 ** r):
+                        viol.append(V('C12/%s(N,r)/%s/rank' % (nm, pkg), [pkg, N], '%s(%d,%d) coins %s: returned r=%d, matrix rank %d' % (nm, N, r, coins, rr, int((np.linalg.eigvalsh(m) > 1e-9).sum()))))
+                        continue
+                    if nm == 'random_pauli_state':
+                        facs = [ref.ptrace(m, [q], N) for q in range(N)]
+                        prod = np.array([[1.0 + 0j]])
+                        for f_ in facs:
+                            prod = np.kron(prod, f_)
+                        nmixed = sum(1 for f_ in facs if np.allclose(f_, np.eye(2) / 2))
+                        if not np.allclose(prod, m) or nmixed != r:
+                            viol.append(V('C12/random_pauli_state(N,r)/%s/not-product' % pkg, [pkg, N], 'random_pauli_state(%d,%d) coins %s is not a product state with %d mixed qubits' % (N, r, coins, r)))
+    return {'n': n, 'nt': n, 'viol': viol}
+
+
 def fn_qutip(items):
     """item = [N, idx]: to_qutip() equals the normalised product of stabilizer projectors."""
     n = 0
@@ -272,10 +323,29 @@ def fn_stabstate(items):
 
 
 def fn_anticommuting(items):
-    """item = [N, i]: every list [G_i, G_j] / [G_i, G_k, G_j] containing an anticommuting pair must raise ValueError."""
+    """item = [N, i(, pkg)]: every list [G_i, G_j] / [G_i, G_k, G_j] containing an anticommuting pair must raise
+    (pyclifford: ValueError; torchclifford: any exception is accepted as "raises an error")."""
     n = 0
     viol = []
-    for N, i in items:
+    for it in items:
+        N, i = it[:2]
+        pkg = it[2] if len(it) > 2 else 'py'
+        if pkg == 'torch':
+            G = ref.all_g(N)
+            A = ref.anti_mat(G)
+            tcm = lib.torch_mods()['tc']
+            for j in range(len(G)):
+                if not A[i, j]:
+                    continue
+                cands = [[G[i], G[j]]] + [[G[i], G[k], G[j]] for k in range(1, len(G)) if not A[i, k] and not A[k, j] and k not in (i, j)][:6]
+                for lst in cands:
+                    n += 1
+                    try:
+                        tcm.stabilizer_state(lib.tPL(lst, [0] * len(lst)))
+                        viol.append(V('C12/stabilizer_state/torch/anticommuting-accepted/L=%d' % len(lst), list(it), 'torch stabilizer_state(%s) did not raise' % [ref.g_to_str(g) for g in lst]))
+                    except Exception:
+                        pass
+            continue
         G = ref.all_g(N)
         A = ref.anti_mat(G)
         for j in range(len(G)):
@@ -326,6 +396,10 @@ def legs(tier):
                        'all 22680' if tier != 'quick' else 'a quarter (blocks of 60, every 4th) of the 22680')))
     out.append(Leg('anticommuting', fn_anticommuting, [[N, i] for N in (1, 2) for i in range(1, 4 ** N)] + [[3, i] for i in range(1, 64, 4 if tier == 'quick' else 1)], chunk=4,
                    bound='all anticommuting ordered pairs N<=2 (N=3: %s first operands), also inside 3-element lists' % ('every 4th' if tier == 'quick' else 'all')))
+    out.append(Leg('random_with_rank', fn_random_r, [['py', 1], ['py', 2], ['py', 3], ['torch', 1], ['torch', 2], ['torch', 3]], chunk=1,
+                   bound='random_pauli_state(N,r) / random_clifford_state(N,r), N<=3, every r, all 256 scripted 8-coin strings (filler 1): requested rank, validity, product structure; both packages'))
+    out.append(Leg('torch_anticommuting', fn_anticommuting, [[N, i, 'torch'] for N in (1, 2) for i in range(1, 4 ** N)] + [[3, i, 'torch'] for i in range(1, 64, 7)], chunk=4,
+                   bound='torchclifford stabilizer_state: anticommuting pairs, also as non-neighbours in 3-element lists, must raise'))
     out.append(Leg('torch_duality', fn_duality, [[1, i, 'torch'] for i in range(6)] + [[2, i, 'torch'] for i in range(0, 720, 1 if tier != 'quick' else 6)], chunk=4,
                    bound='torchclifford to_state / to_map / to_state(r)'))
     out.append(Leg('torch_named', fn_named, [[N, 'torch'] for N in (1, 2, 3)], chunk=1, parallel=False))
